@@ -531,7 +531,7 @@ pub fn run_property<P: Prop>(p: &P, opts: &RunOpts) -> i32 {
                             shrink(p, &mut tree, &fl.sig, case.clone(), fl.msg.clone());
                         let sj = serde_json::to_value(&small).unwrap();
                         local.violations.insert(fl.sig.clone(), (msg, sj));
-                        if local.violations.len() >= 8 {
+                        if local.violations.len() >= 40 {
                             stop.store(true, Ordering::Relaxed);
                         }
                     }
